@@ -1,6 +1,7 @@
 import Driver.Proto
 import Driver.C20
 import Driver.C17
+import Driver.Mp4
 open Driver
 
 def dispatch (line : String) : String :=
@@ -11,6 +12,7 @@ def dispatch (line : String) : String :=
     match prop with
     | "C20" => Driver.C20.handle kv
     | "C17" => Driver.C17.handle kv
+    | "C01" | "C02" | "C03" | "C04" | "C05" => Driver.Mp4.handle prop kv
     | "#" => "NOTE " ++ " ".intercalate rest
     | _ => s!"ERR ? unknown-prop {prop}"
 
